@@ -276,6 +276,8 @@ class Exec:
     # ------------------------------------------------------------------ entry
     def run(self):
         c = self.contract
+        for g in getattr(c, "ghosts", None) or []:
+            g["hit"] = 0
         st = State()
         args = self.fnode.args
         params = [a.arg for a in args.posonlyargs + args.args + args.kwonlyargs]
@@ -288,6 +290,9 @@ class Exec:
             ty = c.arg_types.get(p)
             if ty is None:
                 raise EngineError("contract of %s gives no type for parameter %r" % (self.fnname, p))
+            if ty in ("connection", "cursor"):
+                st.locals[p] = Opaque(ty, rows=None)
+                continue
             if isinstance(ty, str) and ty.startswith("obj["):
                 target = ty[4:-1]
                 st.locals[p] = c.make_self(self, st, facts, c.registry.class_fields(target), target, p)
@@ -299,6 +304,12 @@ class Exec:
             st.assume(f)
         if c.setup:
             c.setup(self, st)
+        if c.options.get("db"):
+            tables = {}
+            for tname, rty in c.registry.tables.items():
+                tables[tname] = fresh_seq(parse_type(rty), "tbl_" + tname, (), None, "list")
+                st.assume(to_z3(tables[tname].n) >= 0)
+            st.ghost["__db__"] = Opaque("db", sealed=z3.Bool(uid("sealed_at_entry")), tables=tables)
         self.entry = st.fork()
         for rq in c.requires:
             st.assume(self.eval_contract(rq, st, {}))
@@ -310,6 +321,10 @@ class Exec:
             if s.status == "run":
                 s.status, s.value = "return", None
             self.exits.append(s)
+        for g in getattr(c, "ghosts", None) or []:
+            if not g.get("hit"):
+                raise EngineError("%s: ghost hook anchored at %r matches no statement (contract does not resolve)"
+                                  % (self.fnname, g.get("after") or g.get("before")))
         self.canaries = []
         for s in self.exits:
             self.check_exit(s)
@@ -489,8 +504,55 @@ class Exec:
                 raise EngineError("%s:L%d: unsupported del target" % (self.fnname, node.lineno))
         return [st]
 
+    def name_seq(self, st, v, hint):
+        """Give a compound element-wise array a name: a fresh function with its defining axiom.
+        Keeps later terms small and makes `a[i]` an application usable as a trigger."""
+        if not (isinstance(v, Seq) and self.checking and not self.binders and not self.bound_stack):
+            return v
+        if v.concrete_len() and v.items is not None:
+            return v
+        n = v.n
+        if is_z3(n) and mentions_bound(n):
+            return v
+        p = bvar("ni")
+        try:
+            saved = self.checking
+            self.checking = False
+            try:
+                e = v.at(p)
+            finally:
+                self.checking = saved
+        except EngineError:
+            return v
+        comps = e if isinstance(e, tuple) else (e,)
+        if not all(is_scalar(x) for x in comps):
+            return v
+        def simple(x):
+            return (not is_z3(x)) or (z3.is_app(x) and x.decl().kind() == z3.Z3_OP_UNINTERPRETED
+                                      and x.num_args() == 1 and x.arg(0).eq(p))
+        if all(simple(x) for x in comps):
+            return v
+        fs = []
+        rng = z3.And(p >= 0, p < to_z3(n))
+        for k, x in enumerate(comps):
+            if not is_z3(x):
+                fs.append(None)
+                continue
+            f = z3.Function(uid("%s_%d" % (hint, k) if len(comps) > 1 else hint), I, x.sort())
+            st.pc.append(z3.ForAll([p], z3.Implies(rng, f(p) == x), patterns=[f(p)]))
+            fs.append(f)
+        if isinstance(e, tuple):
+            at = lambda i: tuple(fs[k](to_z3(as_int(i))) if fs[k] is not None else comps[k] for k in range(len(comps)))
+        else:
+            at = lambda i: fs[0](to_z3(as_int(i)))
+        out = Seq(n, at, v.kind)
+        out._ety = v._ety
+        return out
+
     def stmt_Assign(self, node, st):
         v = self.eval(node.value, st)
+        if len(node.targets) == 1 and isinstance(node.targets[0], ast.Name):
+            v = self.name_seq(st, v, node.targets[0].id)
         for t in node.targets:
             self.assign(t, v, st, rhs=node.value)
         return [st]
@@ -1271,6 +1333,8 @@ class Exec:
             return self.dict_keys(v, st)
         if isinstance(v, SetV):
             return self.set_elems(v, st)
+        if isinstance(v, Opaque) and v.kind == "cursor" and v.get("rows") is not None:
+            return v.get("rows")
         raise EngineError("%s: cannot iterate over %r" % (self.fnname, v))
 
     def map_seq(self, s, f, kind=None):
@@ -1542,22 +1606,44 @@ class Exec:
         if s.concrete_len() and all(isinstance(keep(i), bool) for i in range(s.n)):
             idxs = [i for i in range(s.n) if keep(i)]
             return Seq.of([s.at(i) for i in idxs], s.kind), (lambda j: idxs[j]), None
-        m = z3.Int(uid("count"))
-        src = z3.Function(uid("src"), I, I)
-        inv = z3.Function(uid("srcinv"), I, I)
+        # under quantifier-bound variables (comprehension templates) the count and the index maps
+        # are functions of those variables, and the defining facts hold for all their values
+        bvs = list(self.bound_stack)
+        nb = len(bvs)
+        if nb:
+            mf = z3.Function(uid("count"), *([I] * nb + [I]))
+            m = mf(*bvs)
+            srcf = z3.Function(uid("src"), *([I] * (nb + 1) + [I]))
+            invf = z3.Function(uid("srcinv"), *([I] * (nb + 1) + [I]))
+            src = lambda x: srcf(*(bvs + [x]))
+            inv = lambda x: invf(*(bvs + [x]))
+        else:
+            m = z3.Int(uid("count"))
+            src = z3.Function(uid("src"), I, I)
+            inv = z3.Function(uid("srcinv"), I, I)
         n = to_z3(s.n)
         j = bvar("j")
         i = bvar("i")
-        st.assume(m >= 0, m <= n)
-        st.assume(z3.ForAll([j], z3.Implies(z3.And(j >= 0, j < m),
-                                            z3.And(src(j) >= 0, src(j) < n, to_z3(keep(src(j))), inv(src(j)) == j)),
-                            patterns=[src(j)]))
-        st.assume(z3.ForAll([i], z3.Implies(z3.And(i >= 0, i < n, to_z3(keep(i))),
-                                            z3.And(inv(i) >= 0, inv(i) < m, src(inv(i)) == i)),
-                            patterns=[inv(i)]))
+
+        def add(f):
+            st.pc.append(z3.ForAll(bvs, f) if nb else f)
+        add(z3.And(m >= 0, m <= n))
+        add(z3.ForAll([j], z3.Implies(z3.And(j >= 0, j < m),
+                                      z3.And(src(j) >= 0, src(j) < n, to_z3(keep(src(j))), inv(src(j)) == j)),
+                      patterns=[src(j)]))
+        add(z3.ForAll([i], z3.Implies(z3.And(i >= 0, i < n, to_z3(keep(i))),
+                                      z3.And(inv(i) >= 0, inv(i) < m, src(inv(i)) == i)),
+                      patterns=[inv(i)]))
         j2 = bvar("j")
-        st.assume(z3.ForAll([j, j2], z3.Implies(z3.And(j >= 0, j < j2, j2 < m), src(j) < src(j2)),
-                            patterns=[z3.MultiPattern(src(j), src(j2))]))
+        add(z3.ForAll([j, j2], z3.Implies(z3.And(j >= 0, j < j2, j2 < m), src(j) < src(j2)),
+                      patterns=[z3.MultiPattern(src(j), src(j2))]))
+        # consequences of the three facts above, stated explicitly (first / last kept index bound
+        # every kept index): saves the solver two instantiation chains that it often misses
+        add(z3.Implies(m >= 1, z3.And(src(0) >= 0, src(0) <= src(m - 1), src(m - 1) < n,
+                                      to_z3(keep(src(0))), to_z3(keep(src(m - 1))))))
+        ki = to_z3(keep(i))
+        add(z3.ForAll([i], z3.Implies(z3.And(i >= 0, i < n, ki), z3.And(m >= 1, src(0) <= i, i <= src(m - 1))),
+                      **({"patterns": [ki]} if _is_uf_app(ki) else {})))
         out = Seq(m, lambda jj, s=s: s.at(src(to_z3(jj))), s.kind)
         return out, (lambda jj: src(to_z3(jj))), (lambda ii: inv(to_z3(ii)))
 
@@ -1603,6 +1689,19 @@ class Exec:
                     st.locals.update(saved_locals)
             return conds, v
 
+        if getattr(src, "width", None) is not None and not g.ifs:
+            # a comprehension over zip(*rows): map the (concretely many) columns
+            cache = {}
+
+            def colat(j):
+                if not isinstance(j, int):
+                    raise EngineError("symbolic index into a column-wise comprehension")
+                if j not in cache:
+                    cache[j] = body(j, True)[1]
+                return cache[j]
+            out = Seq(src.n, colat, kind)
+            out.width = src.width
+            return out
         if src.concrete_len() and src.n <= 64:
             items = []
             for k in range(src.n):
@@ -1641,11 +1740,17 @@ class Exec:
         def substitutable(v):
             if isinstance(v, tuple):
                 return all(substitutable(x) for x in v)
+            if isinstance(v, Seq):
+                return True      # element terms are substituted lazily
             return is_scalar(v) or v is None or isinstance(v, str)
 
         def subst(v, i):
             if isinstance(v, tuple):
                 return tuple(subst(x, i) for x in v)
+            if isinstance(v, Seq):
+                out = Seq(subst(v.n, i), lambda k, v=v: subst(v.at(k), i), v.kind)
+                out._ety = v._ety
+                return out
             if is_z3(v):
                 return z3.substitute(v, (jb, to_z3(as_int(i))))
             return v
@@ -1670,6 +1775,10 @@ class Exec:
 
     def expr_Slice(self, node, st):
         raise EngineError("bare slice outside the subset")
+
+
+def _is_uf_app(t):
+    return z3.is_app(t) and t.decl().kind() == z3.Z3_OP_UNINTERPRETED and t.num_args() >= 1
 
 
 def intro(g, depth=0):
